@@ -404,6 +404,7 @@ def main(argv):
                        'whole-tree laws: run-time twins over enumerated trees, value clauses proved per tree for all valuations by z3' % nind)
     run.samples = [dstr(d) for d in trees[:4] + trees[-3:]]
     run.trust('z3; liftvc/den.py'); run.assume('replace_expr maps: keys are identifiers/memory cells of the tree, not nested in each other or in replacements')
+    run.assume('induction steps (C15smt): finite acyclic expression trees (induction principle); den of a node is a function of the fields in exprind.FIELDS; moduint == / hash coherent for ExprInt.arg; callbacks of visit preserve the class of an assignment destination')
     return run.finish()
 
 if __name__ == '__main__':
